@@ -24,7 +24,7 @@ def main(tier, replay=None):
     t0 = time.time()
     if replay:
         return cc.run_replay(PROP, "C02", replay, cc.pattern_vec)
-    res = cc.vec_pipeline(PROP, "C02", "MC_Codec_vec_%s.cfg" % tier, tier, cc.pattern_vec)
+    res = cc.vec_pipeline(PROP, "C02", "MC_Codec_vec_%s.cfg" % tier, tier, cc.pattern_vec, sso_variants=True)
     cc.require_all_kinds(res["by_kind"])
     mc = res["mc"]
     cov = {
@@ -45,6 +45,7 @@ def main(tier, replay=None):
                                  "all pairs and all triples of fields over the full lattice"),
         "vectors_per_kind": res["by_kind"],
         "panics_observed": res["panics"],
+        "sso_feature_builds": res["sso_variants"],
         "violating_records": res["violating_records"],
         "checker_cmd": "tlc MC_Codec_vec_%s.cfg MC_Codec; codec-harness vec; MODE=C02 tlc Trace_Codec" % tier,
     }
@@ -52,5 +53,5 @@ def main(tier, replay=None):
         "lengths strictly between lattice points are not enumerated (DESIGN section 5)",
         "string contents are runs of one byte chosen by the specification (plus a few multi-byte UTF-8 samples); contents are not randomised",
         "equality of the re-parsed packet = the library's own == plus equality of every public accessor value",
-        "the harness is built with the library's default features (small-string optimisation off)",
+        "quick: the harness is built with the library's default features (small-string optimisation off); thorough additionally runs the quick vector set on builds with sso-min-32bit, sso-min-64bit and sso-lv20",
     ], t0)
